@@ -267,7 +267,9 @@ def compress(data, window_bits, rng, tokens=None, delta=False, ref=b'', reset_in
     plain = e8_decode(lz.expand(tokens, ref), filesize, info['intel_started'])
     if not given and plain != data:      # E8 bytes copied from reference data before translation began
         return compress(data, window_bits, rng, None, delta, ref, reset_interval, False, max_frame, cuts)
-    meta = dict(o, lzx_window=window_bits, intel_filesize=filesize, e8_active=sum(info['intel_started']) if filesize else 0,
-                lzx_blocks=info['block_kinds'], frames=len(frames), slots=info['slots'], repeat=info['repeat'],
-                ext_len=info['ext_len'], len_tree_empty=info['len_tree_empty'], plain=plain)
+    meta = dict(o, lzx_window=window_bits, intel_filesize=filesize, e8_frames=sum(info['intel_started']) if filesize else 0,
+                e8_changed_bytes=bool(filesize) and plain != lz.expand(tokens, ref),
+                lzx_blocks=info['block_kinds'], frames=len(frames), max_slot=max(info['slots'], default=-1),
+                slots17=sum(1 for x in info['slots'] if x >= 36), repeat_hits=['R%d' % i for i in range(3) if info['repeat'][i]],
+                ext_len_classes=[i for i in range(4) if info['ext_len'][i]], len_tree_empty=info['len_tree_empty'], plain=plain)
     return frames, total, meta
